@@ -98,7 +98,12 @@ func (e *Engine) VerifyFunc(fn *ssa.Function, fc *contract.Func) (rep *FuncRepor
 		panic(unsupported(rep.Unsupp))
 	}
 	if len(fc.Regions) > 0 {
+		ctx.modAll = true // regions carry no frame condition
 		e.verifyRegions(fn, fc, rep)
+		if fc.Opts["mergegoals"] != "" {
+			merged := MergeSameGoal(e.Obligs[startObl:])
+			e.Obligs = append(e.Obligs[:startObl], merged...)
+		}
 		return rep
 	}
 	st := &State{cellVals: map[*Cell]Value{}, heaps: map[string]*smt.Term{}, facts: map[*smt.Term]bool{}, globals: map[*ssa.Global]Value{}, nonnil: map[*smt.Term]bool{}}
